@@ -175,7 +175,10 @@ def regen_tables():
     if rc != 0: return False, out0 + out + out2
     # the guards every function of SoftHSM.cpp mentions, from the source text (Props/Facts*.lean are decided against it)
     rc, out3 = sh([sys.executable, os.path.join(VERIF, "tools", "extract_facts.py"), REPO, os.path.join(LEAN, "Shm", "Gen")])
-    return rc == 0, out0 + out + out2 + out3
+    if rc != 0: return False, out0 + out + out2 + out3
+    # how the methods of the shared-table classes take their mutex (Props/FactsC18.lean)
+    rc, out4 = sh([sys.executable, os.path.join(VERIF, "tools", "extract_locks.py"), REPO, os.path.join(LEAN, "Shm", "Gen")])
+    return rc == 0, out0 + out + out2 + out3 + out4
 
 
 def lake_build():
